@@ -398,9 +398,10 @@ fn determinism_selfcheck() -> Result<(), String> {
     use storage_layout_extractor::verif_hooks::Perm;
     let programs = [
         "5f5460ff165f555f54805f12505f55",
-        "335f52600760205260405f20600255345f5260205f2060010155",
-        "5f3560e01c8063a000000014601a57005b505f5473ffffffffffffffffffffffffffffffffffffffff165f5260205ff3",
+        "34335f52600360205260405f20553460035f5260205f205f3501555f5460ff1660015500",
+        "5f3560e01c8063a000000014601a578063a000000114602457005b505f545f5260205ff35b5060015f5260205f2060043501545f5260205ff3",
     ];
+    let mut logged = 0usize;
     for h in programs {
         let code = crate::util::unhex(h);
         let a = analyze(&code, storage_layout_extractor::vm::Config::default(), &Vec::new(), lazy());
@@ -408,9 +409,13 @@ fn determinism_selfcheck() -> Result<(), String> {
         if a.canon() != b.canon() || a.log != b.log {
             return Err(format!("two canonical runs of {h} differ: {} vs {}", a.canon(), b.canon()));
         }
-        if a.log.is_empty() {
+        if a.class == crate::obs::Class::Ok && a.log.is_empty() {
             return Err(format!("no order point was logged while analysing {h}: the hooks are not active"));
         }
+        if a.class == crate::obs::Class::Panic {
+            continue;
+        }
+        logged += a.log.len();
         if let Some(p) = a.log.iter().find(|p| p.len >= 2) {
             let plan = vec![((p.site.to_string(), p.occurrence), Perm::Reverse)];
             let c = analyze(&code, storage_layout_extractor::vm::Config::default(), &plan, lazy());
@@ -422,6 +427,9 @@ fn determinism_selfcheck() -> Result<(), String> {
                 return Err(format!("a planned deviation was not applied on {h}"));
             }
         }
+    }
+    if logged == 0 {
+        return Err("no order point was logged by any self-check program: the hooks are not active".into());
     }
     Ok(())
 }
